@@ -22,6 +22,8 @@ class C12(ValsetBase):
             Gen("ValsetGen", "ValsetGen_swap_cover", "bfs", tiers=("quick", "thorough"), timeout=600),
             # a validator that already has an accepted keep-alive re-sends the SAME version after the minimum was raised above it
             Gen("ValsetGen", "ValsetGen_version_cover", "bfs", tiers=("quick", "thorough"), timeout=600),
+            # the same family on the version list with a PRE-RELEASE of the release that is (or becomes) the minimum
+            Gen("ValsetGen", "ValsetGen_verpre_cover", "bfs", tiers=("quick", "thorough"), timeout=600),
             # stake vectors with the silent validator at 24.5%, exactly 25%, 25.49% and 26.47% of bonded power
             Gen("ValsetGen", "ValsetGen_share_cover", "bfs", tiers=("quick",), timeout=600, cap=160),
             Gen("ValsetGen", "ValsetGen_share_cover", "bfs", tiers=("thorough",), timeout=600),
@@ -75,7 +77,12 @@ class C12(ValsetBase):
                       st("Blocks", n=1990, dt=2), ka(2, 1), st("Blocks", n=21, dt=2)]
         ver_sched = [st("InitK", stakes=dom), st("Blocks", n=9, dt=2), ka(2, 1), st("SetMinVersion", ver=3, target=30), ka(2, 1), st("Blocks", n=25, dt=2),
                      ka(2, 1), ka(2, 2), st("Blocks", n=1970, dt=2), ka(2, 1), st("Blocks", n=25, dt=2)]
-        versions = [ver_direct, ver_sched]
+        # pre-release list (vset 1: index 2 = v1.12.0-rc.1 < index 3 = v1.12.0): with the release as minimum its pre-release is refused as
+        # keep-alive and as new (direct or scheduled) minimum
+        ver_pre = [st("InitK", stakes=dom, vset=1), st("Blocks", n=9, dt=2), ka(2, 3), ka(3, 2), st("SetMinVersion", ver=3, target=0), ka(3, 2),
+                   st("SetMinVersion", ver=2, target=0), st("SetMinVersion", ver=2, target=40), ka(3, 2), st("Blocks", n=35, dt=2), ka(3, 2), ka(2, 3),
+                   st("Blocks", n=1990, dt=2), ka(3, 2), st("Blocks", n=21, dt=2)]
+        versions = [ver_direct, ver_sched, ver_pre]
         # the boundary shapes run on address sets without 0x2c (plain; 0x00/0xff; 32-byte and prefix/suffix addresses)
         out = [frag]
         for aset in range(NUM_ADDR_SETS):
